@@ -2,6 +2,7 @@ package main
 
 import (
 	"go/ast"
+	"strings"
 
 	"golang.org/x/tools/go/ssa"
 )
@@ -10,4 +11,173 @@ func (fr *Frame) makeMap(st *State, i *ssa.MakeMap) Value { unsup("maps not mode
 func (fr *Frame) mapUpdate(st *State, i *ssa.MapUpdate)   { unsup("maps not modelled yet") }
 func (fr *Frame) lookup(st *State, i *ssa.Lookup) Value   { unsup("maps not modelled yet"); return nil }
 
-func (v *Verifier) specFunc(se *SpecEnv, name string, c *ast.CallExpr) (Value, bool) { return nil, false }
+// specFunc: specification builtins of the ring layer.
+//   vec(x)            coordinates of an extension-field element (fields of the struct, in order) as a vector
+//   qmul(nr, a, b)    product of two coordinate vectors in R[X]/(X^k - nr), computed by schoolbook convolution
+//   qsq(nr, a)        square
+//   svec(k, i1, v1, ...) sparse vector of length k with the given coordinates, zero elsewhere
+func (v *Verifier) specFunc(se *SpecEnv, name string, c *ast.CallExpr) (Value, bool) {
+	F := v.F
+	switch name {
+	case "vec":
+		x := se.deref(se.eval(c.Args[0]))
+		switch a := x.(type) {
+		case *AggV:
+			return a, true
+		case *TypedAgg:
+			return a.A, true
+		case *Term:
+			return &AggV{[]Value{a}}, true
+		}
+		unsup("vec() of %T", x)
+	case "qmul", "qsq":
+		nr := se.rvalue(se.eval(c.Args[0])).(*Term)
+		a := specVec(se, c.Args[1])
+		b := a
+		if name == "qmul" {
+			b = specVec(se, c.Args[2])
+		}
+		k := len(a)
+		if len(b) != k {
+			unsup("qmul: vectors of different length")
+		}
+		out := make([]Value, k)
+		for i := 0; i < k; i++ {
+			var lo, hi []*Term
+			for j := 0; j < k; j++ {
+				for l := 0; l < k; l++ {
+					if j+l == i {
+						lo = append(lo, F.Mul(a[j], b[l]))
+					}
+					if j+l == i+k {
+						hi = append(hi, F.Mul(a[j], b[l]))
+					}
+				}
+			}
+			t := F.Add(lo...)
+			if len(hi) > 0 {
+				t = F.Add(t, F.Mul(nr, F.Add(hi...)))
+			}
+			out[i] = t
+		}
+		return &AggV{out}, true
+	case "tvec": // all scalar coordinates of a nested extension element, in declaration (tower) order
+		x := se.deref(se.eval(c.Args[0]))
+		var out []Value
+		var flat func(v Value)
+		flat = func(v Value) {
+			switch a := v.(type) {
+			case *AggV:
+				for _, e := range a.Elems {
+					flat(e)
+				}
+			case *TypedAgg:
+				flat(a.A)
+			default:
+				out = append(out, se.rvalue(v))
+			}
+		}
+		flat(x)
+		return &AggV{out}, true
+	case "t12mul": // product in the 2-over-3 tower (C0.B0,C0.B1,C0.B2,C1.B0,C1.B1,C1.B2) = R[w]/(w^6 - nr), v = w^2
+		nr := se.rvalue(se.eval(c.Args[0])).(*Term)
+		a, b := specVec(se, c.Args[1]), specVec(se, c.Args[2])
+		if len(a) != 6 || len(b) != 6 {
+			unsup("t12mul needs two 6-vectors")
+		}
+		perm := []int{0, 2, 4, 1, 3, 5} // tower index -> power of w
+		aw, bw := make([]*Term, 6), make([]*Term, 6)
+		for i := 0; i < 6; i++ {
+			aw[perm[i]], bw[perm[i]] = a[i], b[i]
+		}
+		cw := make([]*Term, 6)
+		for i := 0; i < 6; i++ {
+			var lo, hi []*Term
+			for j := 0; j < 6; j++ {
+				for l := 0; l < 6; l++ {
+					if j+l == i {
+						lo = append(lo, F.Mul(aw[j], bw[l]))
+					}
+					if j+l == i+6 {
+						hi = append(hi, F.Mul(aw[j], bw[l]))
+					}
+				}
+			}
+			t := F.Add(lo...)
+			if len(hi) > 0 {
+				t = F.Add(t, F.Mul(nr, F.Add(hi...)))
+			}
+			cw[i] = t
+		}
+		out := make([]Value, 6)
+		for i := 0; i < 6; i++ {
+			out[i] = cw[perm[i]]
+		}
+		return &AggV{out}, true
+	case "svec":
+		kt := se.rvalue(se.eval(c.Args[0])).(*Term)
+		k := int(kt.K.Int64())
+		out := make([]Value, k)
+		for i := range out {
+			out[i] = F.I64(0)
+		}
+		for i := 1; i+1 < len(c.Args); i += 2 {
+			idx := se.rvalue(se.eval(c.Args[i])).(*Term)
+			out[idx.K.Int64()] = se.rvalue(se.eval(c.Args[i+1]))
+		}
+		return &AggV{out}, true
+	case "vadd", "vsub":
+		a, b := specVec(se, c.Args[0]), specVec(se, c.Args[1])
+		out := make([]Value, len(a))
+		for i := range a {
+			if name == "vadd" {
+				out[i] = F.Add(a[i], b[i])
+			} else {
+				out[i] = F.Sub(a[i], b[i])
+			}
+		}
+		return &AggV{out}, true
+	case "vconj2": // (a0, a1) -> (a0, -a1)
+		a := specVec(se, c.Args[0])
+		if len(a) != 2 {
+			unsup("vconj2 needs a 2-vector")
+		}
+		return &AggV{[]Value{a[0], F.Neg(a[1])}}, true
+	case "vscale":
+		k := se.rvalue(se.eval(c.Args[0])).(*Term)
+		a := specVec(se, c.Args[1])
+		out := make([]Value, len(a))
+		for i := range a {
+			out[i] = F.Mul(k, a[i])
+		}
+		return &AggV{out}, true
+	}
+	if strings.HasPrefix(name, "NR_") {
+		return nil, false
+	}
+	return nil, false
+}
+
+func specVec(se *SpecEnv, e ast.Expr) []*Term {
+	x := se.deref(se.eval(e))
+	var ag *AggV
+	switch a := x.(type) {
+	case *AggV:
+		ag = a
+	case *TypedAgg:
+		ag = a.A
+	case *Term:
+		return []*Term{a}
+	default:
+		unsup("expected coordinate vector, got %T", x)
+	}
+	out := make([]*Term, len(ag.Elems))
+	for i, el := range ag.Elems {
+		t, ok := se.rvalue(el).(*Term)
+		if !ok {
+			unsup("coordinate vector with non-scalar coordinate (is the coordinate type abstract in this layer?)")
+		}
+		out[i] = t
+	}
+	return out
+}
